@@ -679,6 +679,25 @@ def n5(prog: Program, chk: Check) -> None:
                 c12._l1_reason(bad_args, region, want), st)
 
 
+def n6(prog: Program, chk: Check) -> None:
+    chk.rule("N6", "the coefficients of the influence functional are those of the bath the caller "
+             "passed: the memoised double antiderivative (lru_cache on eta_function, keyed by the "
+             "correlations object through its __hash__ / __eq__ and by the arguments) is not "
+             "shared between correlations objects that differ in anything the integrand reads - "
+             "a value equality that leaves out e.g. the cutoff type serves a second bath the "
+             "coefficients of the first", floor=1)
+    from rules.c20 import cache_equality_findings, memoised_state_reads
+    n = 0
+    for (mu, construct, ok, detail) in cache_equality_findings(prog, {"bath_correlations"}):
+        n += 1
+        chk.saw(mu)
+        chk.add("N6", mu, construct, ok, detail, mu.node)
+    memo = [m_ for m_ in memoised_state_reads(prog) if m_[0].module.short == "bath_correlations"]
+    chk.add("N6", prog.module("bath_correlations"),
+            f"{len(memo)} memoised methods in bath_correlations, {n} under a value equality",
+            len(memo) >= 1, "" if memo else "the memoised double antiderivative vanished")
+
+
 def run(prog: Program, chk: Check) -> None:
     chk.explanation = (
         "C01 is claimed in part. The rules decide the part of 'the memory settings have exactly "
@@ -708,3 +727,4 @@ def run(prog: Program, chk: Check) -> None:
     chk.call(n3, prog, chk)
     chk.call(n4, prog, chk)
     chk.call(n5, prog, chk)
+    chk.call(n6, prog, chk)
